@@ -64,7 +64,10 @@ def make_case(index, seed):
     fam, tag, pw, flags = SPACE()[index]
     return {"family": fam, "tag": tag, "power": pw, "flags": list(flags), "transport": "udp" if index % 3 else "tcp",
             "seed": (seed * 7919 + index) & 0xFFFF, "battery_modes": [[1, 1, 1], [1, 0, 1], [0, 1, 1], [0, 0, 1]][index % 4],
-            "lossy": index % 5 == 4}
+            "lossy": index % 5 == 4,
+            # GoodWe devices are known to announce a wrong Modbus/TCP message length (the library ignores the field):
+            # a full-length answer stays a full-length answer whatever that header field says
+            "mbap_len": [None, "data", None, "six"][(index // 3) % 4] if index % 3 == 0 and fam != "ES" else None}
 
 
 _SP = []
@@ -96,6 +99,8 @@ def run_config(case, monitor_reads=False, calls=None):
         dev = devices.make_es(serial=serial, firmware=case["flags"][0], seed=case["seed"], fill="hash")
         inv = goodwe.ES(C.HOST, C.port_of(tr), 0, 1, 2)
     world.net.add_device(C.HOST, C.port_of(tr), dev)
+    if case.get("mbap_len"):
+        dev.mbap_len = case["mbap_len"]
     obs = {"world": world, "dev": dev, "inv": inv, "family": fam, "transport": tr, "serial": serial, "polls": [],
            "short_reads": [], "info": None}
 
